@@ -137,6 +137,27 @@ def opcode_codes():
     return _opcode_codes
 
 
+_focus_cache = {}
+
+
+def focus_codes(attrs):
+    """code objects of every function that accesses one of the shared attributes `attrs` (names as in Generated/Locks.lean,
+    e.g. `Router__cbf_buffer`) - from the same ast pass as the lock map, so a new function touching the attribute is in it"""
+    key = tuple(sorted(attrs))
+    if key not in _focus_cache:
+        info = gen_locks.analyse()
+        names = {r[0] for r in info["records"] if r[1] in attrs}
+        codes = []
+        for cls in (router_mod.Router, loct_mod.LocationTable, loct_mod.LocationTableEntry):
+            for n, f in vars(cls).items():
+                if f"{cls.__name__}_{n}" in names and hasattr(f, "__code__"):
+                    codes.append(f.__code__)
+        if not codes:
+            raise Infra(f"focus {attrs}: no function of the source accesses these attributes")
+        _focus_cache[key] = codes
+    return _focus_cache[key]
+
+
 # ------------------------------------------------------------------------------------------------ frames
 
 
@@ -276,7 +297,8 @@ class Run:
                     r._cbf_buffer.clear()
                 if sc.get("nolock"):            # self-test hook of the HARNESS only: emulate a dropped `with`
                     setattr(r, sc["nolock"], dsched.NoLock())
-                s = dsched.DSched(policy, line_files=FILES, opcode_codes=opcode_codes(), max_steps=max_steps)
+                s = dsched.DSched(policy, line_files=FILES, opcode_codes=opcode_codes(), max_steps=max_steps,
+                                  focus_codes=focus_codes(sc["focus"]) if sc.get("focus") else None)
                 self.s = s
                 self.lock_held = []
                 orig_dup = loct_mod.LocationTableEntry.check_duplicate_sn
@@ -293,9 +315,13 @@ class Run:
                 if "sn0" in sc:                 # the sequence counter starts near its wrap-around
                     r.sequence_number = sc["sn0"]
                 reply_iter = {d: iter(frames.reply_frames(d, 3)) for d in scenario_dests(sc)}
-                if sc.get("pre"):               # operations executed sequentially before the threads start (their timers never fire)
+                if sc.get("pre"):               # operations executed sequentially before the threads start
                     with rs.quiet():
                         self._thread_body(sc["pre"], reply_iter)()
+                    if sc.get("pre_timers"):    # ... whose CBF timers are running when the threads start (else: they never fire)
+                        for key_, t_ in sorted(r._cbf_buffer.items(), key=lambda kv: kv[0][1]):
+                            if isinstance(t_, dsched.STimer):
+                                t_.adopt(s, name=f"tm-pre{key_[1]}")
                 for ti, ops in enumerate(sc["threads"]):
                     s.spawn(self._thread_body(ops, reply_iter), name=f"T{ti}")
                 try:
@@ -653,12 +679,15 @@ def model_line(sc):
         return toks
 
     init = []
+    if sc.get("pre_timers") and any(op[0] in ("guc", "lsR") for op in sc.get("pre", [])):
+        raise Infra("pre_timers adopts the CBF timers only: no location-service operation in `pre`")
     if sc.get("warm"):
         init.append(f"warm:{GBC_SRC}:40")
     if "sn0" in sc:
         init.append(f"sn0:{sc['sn0']}")
     if sc.get("pre"):
-        init += tokens(sc["pre"], 0)      # timers started before the scheduler runs never fire
+        # timers started before the scheduler runs never fire - unless the scenario adopts the CBF timers (`pre_timers`)
+        init += tokens(sc["pre"], 1 if sc.get("pre_timers") else 0)
     for th in sc["threads"]:
         threads.append(tokens(th, depth))
     segs = ([["init"] + init] if init else []) + threads + extra
@@ -736,6 +765,19 @@ def scenarios(ctx):
         # reception's refresh_table can run between any two table accesses of the registration; section level exhausted
         {"name": "ls-rx-2req", "threads": [[["guc", 1, 1, 9]], [["shbRx", 2, 60], ["guc", 3, 2, 9]]], "timer_depth": 0,
          "ccap": 60, "frac": 0.5, "oracle_only_if_purging": True},
+        # timer expiry racing with the discard by an overheard duplicate: the packet was buffered (and its CBF timer started)
+        # before the threads run; the duplicate's reception || the timer thread, pre-empted only INSIDE the functions that
+        # access the CBF buffer (`focus`), at every bytecode and lock operation there: every schedule with one pre-emption,
+        # then those with two (discard pre-empted between two of its steps, expiry pre-empted between removal and transmission)
+        {"name": "cbf-discard-expiry", "pre": [["gbcRx", 1, 7]], "pre_timers": True, "threads": [[["gbcRx", 2, 7]]], "warm": True,
+         "focus": ["Router__cbf_buffer"], "order": "bfs", "cap": 130, "ccap": 12, "pct": 4},
+        # the same for the forwarder's own cancel branch (a second forwarder call for the key) against the expiry
+        {"name": "cbf-cancel-expiry", "pre": [["cbfA", 1, 7]], "pre_timers": True, "threads": [[["cbfA", 2, 7]]],
+         "focus": ["Router__cbf_buffer"], "order": "bfs", "cap": 40, "ccap": 10, "pct": 4},
+        # two LS replies of the same station (answers to the LS request and to its retransmission: different SNs, both pass
+        # duplicate detection) handled by two receive threads while a request is buffered behind the lookup
+        {"name": "ls-2reply", "pre": [["guc", 1, 1, 9]], "threads": [[["lsR", 2, 9]], [["lsR", 3, 9]]], "timer_depth": 0,
+         "ccap": 40, "frac": 0.25},
     ]
     if ctx.thorough:
         out += [
